@@ -85,3 +85,50 @@ def compare_lts(acc, ref, got, what, tol=None, walks=2, rnd=None):
                     out.append((ri, gsig(what, "walk-disagrees-with-product"), {"impl": tr[:20], "spec": tr2[:20]}))
                     break
     return out
+
+
+def exps_workload(shard):
+    """(name, program) stream for shards of kind catalogue / random / flat (G-EXPS)."""
+    from vf.gen import Gen, Cfg, shape_catalogue, flat_program
+
+    rnd = random.Random(shard["seed"])
+    if shard["kind"] == "catalogue":
+        yield from shape_catalogue()
+    elif shard["kind"] == "flat":
+        for i in range(shard["n"]):
+            yield f"flat{i}", flat_program(random.Random(rnd.randrange(1 << 40)))
+    else:
+        for i in range(shard["n"]):
+            cfg = Cfg(depth=shard.get("depth", 2), **shard.get("cfg", {}))
+            yield f"random{i}", Gen(random.Random(rnd.randrange(1 << 40)), cfg).program()
+
+
+def std_shards(pid, tier, seed, n_quick, n_thorough, nshards=15, catalogue=True, extra=None):
+    out = [{"kind": "catalogue", "seed": seed}] if catalogue else []
+    n = n_quick if tier == "quick" else n_thorough
+    for i, s in enumerate(shard_seeds(seed, nshards, pid)):
+        depth = 2 if tier == "quick" else (2 + i % 3)
+        sh = {"kind": "random", "seed": s, "n": n, "depth": depth}
+        if extra:
+            sh.update(extra)
+        out.append(sh)
+    return out
+
+
+def try_compile(text, acc, lookup=None, path=None):
+    """Compile with the real compiler; documented rejections are counted, returns compiler or None."""
+    from explorerscript.error import ParseError, SsbCompilerError
+    from vf import norm
+
+    try:
+        if path is not None:
+            return norm.compile_exps(text, path, lookup)
+        return norm.compile_exps(text, lookup=lookup)
+    except (ParseError, SsbCompilerError, ValueError) as e:
+        acc.count("rejected:" + type(e).__name__)
+        if len(acc.sets.get("rejected_messages", ())) < 12:
+            acc.add_to_set("rejected_messages", gsig(type(e).__name__, str(e)[:60]))
+        return None
+    except Exception as e:
+        acc.count("compile_crash:" + type(e).__name__)
+        return None
